@@ -181,6 +181,7 @@ fn check_send(rst: [u8; 2], rq: &[usize]) {
     }
     drop(st);
     assert!(queue_ok(&w), "[C01] queue consistent after send");
+    assert!(w.rf[0].is_terminated() == (rst[0] == 3) && w.rf[1].is_terminated() == (rst[1] == 3), "[C17] send() terminates no future: a woken receiver is not terminated until its poll returned Ready");
 }
 
 fn check_close(rst: [u8; 2], rq: &[usize]) {
@@ -229,8 +230,13 @@ fn send_at_the_end_of_the_id_space_is_rejected() {
 #[kani::proof]
 fn fresh_future_is_not_terminated() {
     let ch = Ch::new();
-    let r = ch.receive(StateId::new());
+    let want: u64 = kani::any();
+    let r = ch.receive(StateId(want));
     assert!(!r.is_terminated(), "[C17] is_terminated() is false from creation");
+    assert!(r.wait_node.state == RecvPollState::Unregistered && r.wait_node.task.is_none() && r.wait_node.state_id == StateId(want), "[C13] a new receive future waits for something newer than exactly the id it was given");
+    let st = ch.inner.lock();
+    assert!(!st.is_closed && st.value.is_none() && st.state_id == StateId(0) && st.waiters.is_empty(), "[C13] [C11] a new channel is open, has published nothing, and its first id will be 1");
+    assert!(StateId::new() == StateId(0), "[C13] StateId::new() is smaller than every published id");
 }
 
 #[kani::proof]
